@@ -25,22 +25,25 @@
 
 int __real_usleep(useconds_t);
 
-enum { K_TREE, K_HASH, K_LISTTBL, K_LIST, K_QUEUE, K_STACK, K_VECTOR, NKINDS };
-static const char *KNAME[NKINDS] = {"qtreetbl", "qhashtbl", "qlisttbl(unique)", "qlist", "qqueue", "qstack", "qvector"};
-static bool is_map(int k) { return k <= K_LISTTBL; }
+enum { K_TREE, K_HASH, K_LISTTBL, K_LIST, K_QUEUE, K_STACK, K_VECTOR, K_LISTMULTI, NKINDS };
+static const char *KNAME[NKINDS] = {"qtreetbl", "qhashtbl", "qlisttbl(unique)", "qlist", "qqueue", "qstack", "qvector", "qlisttbl(multi)"};
+static bool is_map(int k) { return k <= K_LISTTBL; }                       /* one value per key */
+static bool is_keyed(int k) { return k <= K_LISTTBL || k == K_LISTMULTI; } /* put/get/remove/clear/walk family; K_LISTMULTI keeps every value of a key, in insertion order */
 
 /* operations */
 enum { O_PUT, O_GET, O_REMOVE, O_CLEAR, O_WALK,                       /* maps */
        O_ADDFIRST, O_ADDLAST, O_POPFIRST, O_POPLAST, O_GETFIRST, O_GETLAST, O_TOARRAY, O_TOSTRING, O_SEQCLEAR,
        O_FINDMIN, O_FINDMAX, O_NEAREST,                                  /* tree only: copying ordered lookups */
        O_ADDAT, O_GETAT, O_POPAT,                                         /* list, vector: position = key */
+       O_GETMULTI,                                                        /* list table without the unique option */
+       O_NEXT1, O_NEXT1ANY,                                               /* one stand-alone getnext(copy) on a fresh cursor, NOT under the caller's lock: named (list tables) / unnamed (tree: smallest key; multi list table: first entry) */
        NOPS };
 static const char *ONAME[NOPS] = {"put", "get", "remove", "clear", "locked-walk", "addfirst", "addlast", "popfirst", "poplast", "getfirst", "getlast", "toarray", "tostring", "clear",
-                                  "find_min", "find_max", "find_nearest", "addat", "getat", "popat"};
+                                  "find_min", "find_max", "find_nearest", "addat", "getat", "popat", "getmulti", "getnext-first", "getnext-first-any"};
 static bool is_add(int op) { return op == O_ADDFIRST || op == O_ADDLAST || op == O_ADDAT; }
 static bool is_pop(int op) { return op == O_POPFIRST || op == O_POPLAST || op == O_POPAT; }
-static bool is_seqget(int op) { return op == O_GETFIRST || op == O_GETLAST || op == O_GETAT; }
-#define MAXSNAP 24
+static bool is_seqget(int op) { return op == O_GETFIRST || op == O_GETLAST || op == O_GETAT || op == O_NEXT1; }
+#define MAXSNAP 48
 typedef struct { int op, key; uint64_t val; } opspec_t;
 typedef struct { int ok; uint64_t val; int n; uint64_t snap[MAXSNAP]; uint64_t keys[MAXSNAP]; } opres_t;
 typedef struct { opspec_t s; opres_t r; long inv, resp; int thread; bool done; } hop_t;
@@ -69,6 +72,7 @@ static void make(ctx_t *c, int kind) {
     case K_QUEUE: c->queue = qqueue(QQUEUE_THREADSAFE); c->mutex = c->queue ? c->queue->list->qmutex : NULL; break;
     case K_STACK: c->stack = qstack(QSTACK_THREADSAFE); c->mutex = c->stack ? c->stack->list->qmutex : NULL; break;
     case K_VECTOR: c->vec = qvector(0, 8, QVECTOR_THREADSAFE); c->mutex = c->vec ? c->vec->qmutex : NULL; break;
+    case K_LISTMULTI: c->ltbl = qlisttbl(QLISTTBL_THREADSAFE | QLISTTBL_LOOKUPFORWARD); c->mutex = c->ltbl ? c->ltbl->qmutex : NULL; break;
     }
     if (!c->mutex) { fprintf(stderr, "h_conc: constructor failed\n"); exit(2); }
 }
@@ -76,7 +80,7 @@ static void destroy(ctx_t *c) {
     switch (c->kind) {
     case K_TREE: c->tree->free(c->tree); break; case K_HASH: c->hash->free(c->hash); break; case K_LISTTBL: c->ltbl->free(c->ltbl); break;
     case K_LIST: c->list->free(c->list); break; case K_QUEUE: c->queue->free(c->queue); break; case K_STACK: c->stack->free(c->stack); break;
-    case K_VECTOR: c->vec->free(c->vec); break;
+    case K_VECTOR: c->vec->free(c->vec); break; case K_LISTMULTI: c->ltbl->free(c->ltbl); break;
     }
 }
 
@@ -115,8 +119,24 @@ static void do_op(ctx_t *c, const opspec_t *s, opres_t *r) {
         case O_GET: { size_t sz = 0; void *d = t->get(t, k, &sz, true); r->ok = d != NULL; if (d) { if (sz == 8) memcpy(&r->val, d, 8); else r->val = ~0ULL; free(d); } break; }
         case O_REMOVE: r->ok = t->remove(t, k) > 0; break;
         case O_CLEAR: t->clear(t); r->ok = 1; break;
+        case O_NEXT1: { qlisttbl_obj_t o; memset(&o, 0, sizeof o); r->ok = t->getnext(t, &o, k, true);
+            if (r->ok) { r->keys[0] = o.name ? (uint64_t)kid(o.name) : 99; if (o.size == 8 && o.data) memcpy(&r->val, o.data, 8); else r->val = ~0ULL; free(o.name); free(o.data); } break; }
         case O_WALK: { qlisttbl_obj_t o; memset(&o, 0, sizeof o); t->lock(t);
             while (t->getnext(t, &o, NULL, false) && r->n < MAXSNAP) { r->keys[r->n] = (uint64_t)kid(o.name); if (o.size == 8) memcpy(&r->snap[r->n], o.data, 8); else r->snap[r->n] = ~0ULL; r->n++; }
+            t->unlock(t); r->ok = 1; break; }
+        } break; }
+    case K_LISTMULTI: { qlisttbl_t *t = c->ltbl;
+        switch (s->op) {
+        case O_PUT: r->ok = t->put(t, k, &v, 8); break;
+        case O_GET: { size_t sz = 0; void *d = t->get(t, k, &sz, true); r->ok = d != NULL; if (d) { if (sz == 8) memcpy(&r->val, d, 8); else r->val = ~0ULL; free(d); } break; }
+        case O_REMOVE: r->ok = t->remove(t, k) > 0; break;
+        case O_CLEAR: t->clear(t); r->ok = 1; break;
+        case O_NEXT1: case O_NEXT1ANY: { qlisttbl_obj_t o; memset(&o, 0, sizeof o); r->ok = t->getnext(t, &o, s->op == O_NEXT1 ? k : NULL, true);
+            if (r->ok) { r->keys[0] = o.name ? (uint64_t)kid(o.name) : 99; if (o.size == 8 && o.data) memcpy(&r->val, o.data, 8); else r->val = ~0ULL; free(o.name); free(o.data); } break; }
+        case O_GETMULTI: { size_t n = 0; qlisttbl_data_t *a = t->getmulti(t, k, true, &n); r->ok = 1;
+            if (a) { for (size_t i = 0; i < n; i++) { if (r->n >= 0 && r->n < MAXSNAP) { if (a[i].size == 8 && a[i].data) memcpy(&r->snap[r->n], a[i].data, 8); else r->snap[r->n] = ~0ULL; r->n++; } else r->n = -2; free(a[i].data); } free(a); } break; }
+        case O_WALK: { qlisttbl_obj_t o; memset(&o, 0, sizeof o); t->lock(t);
+            while (t->getnext(t, &o, NULL, false)) { if (r->n < 0 || r->n >= MAXSNAP) { r->n = -2; continue; } r->keys[r->n] = (uint64_t)kid(o.name); if (o.size == 8) memcpy(&r->snap[r->n], o.data, 8); else r->snap[r->n] = ~0ULL; r->n++; }
             t->unlock(t); r->ok = 1; break; }
         } break; }
     case K_LIST: { qlist_t *l = c->list; size_t sz = 0; void *d = NULL;
@@ -128,6 +148,7 @@ static void do_op(ctx_t *c, const opspec_t *s, opres_t *r) {
         case O_GETFIRST: d = l->getfirst(l, &sz, true); break;
         case O_GETLAST: d = l->getlast(l, &sz, true); break;
         case O_SEQCLEAR: l->clear(l); r->ok = 1; break;
+        case O_NEXT1: { qlist_obj_t o; memset(&o, 0, sizeof o); if (l->getnext(l, &o, true)) { d = o.data; sz = o.size; } break; }
         case O_ADDAT: r->ok = l->addat(l, s->key, &v, 8); break;
         case O_GETAT: d = l->getat(l, s->key, &sz, true); break;
         case O_POPAT: d = l->popat(l, s->key, &sz); break;
@@ -154,6 +175,7 @@ static void do_op(ctx_t *c, const opspec_t *s, opres_t *r) {
         case O_GETFIRST: d = vv->getfirst(vv, true); break;
         case O_GETLAST: d = vv->getlast(vv, true); break;
         case O_SEQCLEAR: vv->clear(vv); r->ok = 1; break;
+        case O_NEXT1: { qvector_obj_t o; memset(&o, 0, sizeof o); if (vv->getnext(vv, &o, true)) d = o.data; break; }
         case O_ADDAT: r->ok = vv->addat(vv, s->key, &v); break;
         case O_GETAT: d = vv->getat(vv, s->key, true); break;
         case O_POPAT: d = vv->popat(vv, s->key); break;
@@ -166,13 +188,26 @@ static void do_op(ctx_t *c, const opspec_t *s, opres_t *r) {
 
 /* ---- sequential models --------------------------------------------------------------------- */
 #define NKEYS 4
-typedef struct { uint64_t map[NKEYS]; uint64_t seq[MAXSNAP * 2]; int n; } model_t;
-static uint64_t model_hash(const model_t *m, bool map) { return map ? vf_hash(m->map, sizeof m->map, VF_H0) : vf_hash(m->seq, (size_t)m->n * 8, VF_H0 + (uint64_t)m->n); }
+typedef struct { uint64_t map[NKEYS]; uint64_t seq[MAXSNAP * 2]; unsigned char skey[MAXSNAP * 2]; int n; } model_t;
+static uint64_t model_hash(const model_t *m, int kind) { return is_map(kind) ? vf_hash(m->map, sizeof m->map, VF_H0) : kind == K_LISTMULTI ? vf_hash(m->skey, (size_t)m->n, vf_hash(m->seq, (size_t)m->n * 8, VF_H0 + (uint64_t)m->n)) : vf_hash(m->seq, (size_t)m->n * 8, VF_H0 + (uint64_t)m->n); }
 static void seq_ins(model_t *m, int pos, uint64_t v) { if (m->n >= MAXSNAP * 2) return; memmove(&m->seq[pos + 1], &m->seq[pos], (size_t)(m->n - pos) * 8); m->seq[pos] = v; m->n++; }
 static uint64_t seq_del(model_t *m, int pos) { uint64_t v = m->seq[pos]; memmove(&m->seq[pos], &m->seq[pos + 1], (size_t)(m->n - pos - 1) * 8); m->n--; return v; }
 /* apply op to the model; true iff the recorded result is what the model answers */
 static bool model_apply(int kind, model_t *m, const hop_t *h) {
     const opspec_t *s = &h->s; const opres_t *r = &h->r;
+    if (kind == K_LISTMULTI) {       /* ordered multimap: entries in insertion order, lookups from the first entry */
+        switch (s->op) {
+        case O_PUT: if (m->n < MAXSNAP * 2) { m->seq[m->n] = s->val; m->skey[m->n] = (unsigned char)s->key; m->n++; } return r->ok == 1;
+        case O_GET: { for (int i = 0; i < m->n; i++) if (m->skey[i] == s->key) return r->ok && r->val == m->seq[i]; return !r->ok; }
+        case O_REMOVE: { int w = 0, had = 0; for (int i = 0; i < m->n; i++) { if (m->skey[i] == s->key) { had = 1; continue; } m->seq[w] = m->seq[i]; m->skey[w] = m->skey[i]; w++; } m->n = w; if (r->ok == -1) return true; return (r->ok != 0) == (had != 0); }
+        case O_CLEAR: m->n = 0; return true;
+        case O_NEXT1: { for (int i = 0; i < m->n; i++) if (m->skey[i] == s->key) return r->ok && (int)r->keys[0] == s->key && r->val == m->seq[i]; return !r->ok; }
+        case O_NEXT1ANY: return m->n ? (r->ok && r->keys[0] == m->skey[0] && r->val == m->seq[0]) : !r->ok;
+        case O_GETMULTI: { int j = 0; for (int i = 0; i < m->n; i++) if (m->skey[i] == s->key) { if (j >= r->n || r->snap[j] != m->seq[i]) return false; j++; } return j == r->n; }
+        case O_WALK: { if (r->n != m->n) return false; for (int i = 0; i < m->n; i++) if (r->keys[i] != m->skey[i] || r->snap[i] != m->seq[i]) return false; return true; }
+        }
+        return false;
+    }
     if (is_map(kind)) {
         switch (s->op) {
         case O_PUT: m->map[s->key] = s->val; return r->ok == 1;
@@ -183,6 +218,7 @@ static bool model_apply(int kind, model_t *m, const hop_t *h) {
             if (r->n != cnt) return false;
             for (int i = 0; i < r->n; i++) { if (r->keys[i] >= NKEYS || m->map[r->keys[i]] != r->snap[i]) return false; for (int j = 0; j < i; j++) if (r->keys[j] == r->keys[i]) return false; }
             return true; }
+        case O_NEXT1: return m->map[s->key] ? (r->ok && (int)r->keys[0] == s->key && r->val == m->map[s->key]) : !r->ok;
         case O_FINDMIN: case O_FINDMAX: { int f = -1; for (int k = 0; k < NKEYS; k++) if (m->map[k]) { f = k; if (s->op == O_FINDMIN) break; }
             return f < 0 ? !r->ok : (r->ok && (int)r->keys[0] == f); }
         case O_NEAREST: { int f = -1; for (int k = 0; k <= s->key; k++) if (m->map[k]) f = k;          /* floor ... */
@@ -197,7 +233,7 @@ static bool model_apply(int kind, model_t *m, const hop_t *h) {
     case O_ADDLAST: if (stack) { seq_ins(m, 0, s->val); return r->ok == 1; } seq_ins(m, m->n, s->val); return r->ok == 1;
     case O_POPFIRST: if (m->n == 0) return !r->ok; { uint64_t v = seq_del(m, 0); return r->ok && r->val == v; }
     case O_POPLAST: if (m->n == 0) return !r->ok; { uint64_t v = seq_del(m, m->n - 1); return r->ok && r->val == v; }
-    case O_GETFIRST: if (m->n == 0) return !r->ok; return r->ok && r->val == m->seq[0];
+    case O_GETFIRST: case O_NEXT1: if (m->n == 0) return !r->ok; return r->ok && r->val == m->seq[0];
     case O_GETLAST: if (m->n == 0) return !r->ok; return r->ok && r->val == m->seq[m->n - 1];
     case O_SEQCLEAR: m->n = 0; return true;
     case O_ADDAT: if (s->key > m->n) return !r->ok; seq_ins(m, s->key, s->val); return r->ok == 1;
@@ -222,7 +258,7 @@ static long lin_steps, lin_cap;
 static int lin_rec(int kind, hop_t *H, int n, uint64_t done, const model_t *m, int *order, int depth) {
     if (depth == n) return 1;
     if (++lin_steps > lin_cap) return -1;
-    if (!memo_add(done * 0x9E3779B97F4A7C15ULL ^ model_hash(m, is_map(kind)))) return 0;
+    if (!memo_add(done * 0x9E3779B97F4A7C15ULL ^ model_hash(m, kind))) return 0;
     /* minimal operations: not yet linearized and no other unlinearized operation responded before their invocation */
     long minresp = -1;
     for (int i = 0; i < n; i++) if (!(done >> i & 1) && H[i].done && (minresp < 0 || H[i].resp < minresp)) minresp = H[i].resp;
@@ -246,12 +282,12 @@ static int linearizable(int kind, hop_t *H, int n, const model_t *init, int *ord
 }
 static void describe(char *b, size_t bs, const hop_t *h) {
     int n = snprintf(b, bs, "T%d %s", h->thread, ONAME[h->s.op]);
-    if (h->s.op <= O_REMOVE || h->s.op == O_NEAREST) n += snprintf(b + n, bs - (size_t)n, "(k%d", h->s.key); else if (h->s.op >= O_ADDAT) n += snprintf(b + n, bs - (size_t)n, "(@%d", h->s.key); else n += snprintf(b + n, bs - (size_t)n, "(");
+    if (h->s.op <= O_REMOVE || h->s.op == O_NEAREST || h->s.op == O_GETMULTI) n += snprintf(b + n, bs - (size_t)n, "(k%d", h->s.key); else if (h->s.op == O_NEXT1) n += snprintf(b + n, bs - (size_t)n, "(%d", h->s.key); else if (h->s.op >= O_ADDAT && h->s.op <= O_POPAT) n += snprintf(b + n, bs - (size_t)n, "(@%d", h->s.key); else n += snprintf(b + n, bs - (size_t)n, "(");
     if (h->s.op == O_PUT || is_add(h->s.op)) n += snprintf(b + n, bs - (size_t)n, "%sv%llx", h->s.op == O_PUT || h->s.op == O_ADDAT ? "," : "", (unsigned long long)h->s.val);
     n += snprintf(b + n, bs - (size_t)n, ") -> ");
-    if (h->s.op == O_WALK || h->s.op == O_TOARRAY || h->s.op == O_TOSTRING) { n += snprintf(b + n, bs - (size_t)n, "["); for (int i = 0; i < h->r.n && n < (int)bs - 30; i++) n += snprintf(b + n, bs - (size_t)n, h->s.op == O_WALK ? "k%llu=v%llx " : "%.0llu" "v%llx ", h->s.op == O_WALK ? (unsigned long long)h->r.keys[i] : 0ULL, (unsigned long long)h->r.snap[i]); n += snprintf(b + n, bs - (size_t)n, "]"); }
+    if (h->s.op == O_WALK || h->s.op == O_TOARRAY || h->s.op == O_TOSTRING || h->s.op == O_GETMULTI) { n += snprintf(b + n, bs - (size_t)n, "["); for (int i = 0; i < h->r.n && n < (int)bs - 30; i++) n += snprintf(b + n, bs - (size_t)n, h->s.op == O_WALK ? "k%llu=v%llx " : "%.0llu" "v%llx ", h->s.op == O_WALK ? (unsigned long long)h->r.keys[i] : 0ULL, (unsigned long long)h->r.snap[i]); n += snprintf(b + n, bs - (size_t)n, "]"); }
     else if (h->r.ok && (h->s.op == O_FINDMIN || h->s.op == O_FINDMAX)) n += snprintf(b + n, bs - (size_t)n, "k%llu", (unsigned long long)h->r.keys[0]);
-    else if (h->r.ok && h->s.op == O_NEAREST) n += snprintf(b + n, bs - (size_t)n, "k%llu=v%llx", (unsigned long long)h->r.keys[0], (unsigned long long)h->r.val);
+    else if (h->r.ok && (h->s.op == O_NEAREST || h->s.op == O_NEXT1 || h->s.op == O_NEXT1ANY)) n += snprintf(b + n, bs - (size_t)n, "k%llu=v%llx", (unsigned long long)h->r.keys[0], (unsigned long long)h->r.val);
     else if (h->r.ok && (h->s.op == O_GET || is_pop(h->s.op) || is_seqget(h->s.op))) n += snprintf(b + n, bs - (size_t)n, "v%llx", (unsigned long long)h->r.val);
     else n += snprintf(b + n, bs - (size_t)n, "%s", h->r.ok ? "ok" : "none/false");
     snprintf(b + n, bs - (size_t)n, "  [inv %ld, resp %ld]", h->inv, h->resp);
@@ -352,7 +388,7 @@ static int run_execution(program_t *pg, model_t *init, int *total_ops) {
     memset(init, 0, sizeof *init);
     /* identical pre-fill */
     for (int i = 0; i < pg->prefill; i++) { opspec_t s; opres_t r; s.key = i % 2; s.val = idval(900000 + (uint64_t)i);
-        s.op = is_map(pg->kind) ? O_PUT : O_ADDLAST; do_op(&CX, &s, &r);
+        s.op = is_keyed(pg->kind) ? O_PUT : O_ADDLAST; do_op(&CX, &s, &r);
         hop_t h; h.s = s; h.r = r; model_apply(pg->kind, init, &h); }
     vf_lock_register(CX.mutex);
     NW = pg->nthreads; CHN = 0; DEADLOCK = false; OWNER = -1; CUR = -1; STAMP = 0;
@@ -372,7 +408,7 @@ static int run_execution(program_t *pg, model_t *init, int *total_ops) {
     int rc = 1;
     if (DEADLOCK) rc = -2;
     else {
-        hop_t fin; memset(&fin, 0, sizeof fin); fin.thread = 9; fin.s.op = is_map(pg->kind) ? O_WALK : O_TOARRAY; fin.inv = stamp(); fin.done = true;
+        hop_t fin; memset(&fin, 0, sizeof fin); fin.thread = 9; fin.s.op = is_keyed(pg->kind) ? O_WALK : O_TOARRAY; fin.inv = stamp(); fin.done = true;
         if (pg->kind == K_QUEUE || pg->kind == K_STACK) {   /* no flattening accessor: read through the underlying list */
             qlist_t *l = pg->kind == K_QUEUE ? CX.queue->list : CX.stack->list; fin.r.ok = 1; for (qlist_obj_t *o = l->first; o && fin.r.n < MAXSNAP; o = o->next) { memcpy(&fin.r.snap[fin.r.n], o->data, 8); fin.r.n++; }
         } else do_op(&CX, &fin.s, &fin.r);
@@ -385,15 +421,19 @@ static int run_execution(program_t *pg, model_t *init, int *total_ops) {
 }
 
 static const int MAPOPS[] = {O_PUT, O_PUT, O_GET, O_REMOVE, O_REMOVE, O_CLEAR, O_WALK};
+static const int MULTIOPS[] = {O_PUT, O_PUT, O_PUT, O_GET, O_REMOVE, O_CLEAR, O_WALK, O_GETMULTI, O_GETMULTI, O_NEXT1, O_NEXT1ANY, O_REMOVE};
+static const int LTBLOPS[] = {O_PUT, O_PUT, O_GET, O_REMOVE, O_REMOVE, O_CLEAR, O_WALK, O_NEXT1, O_NEXT1, O_PUT};
 static const int TREEOPS[] = {O_PUT, O_PUT, O_GET, O_REMOVE, O_REMOVE, O_CLEAR, O_WALK, O_FINDMIN, O_FINDMAX, O_NEAREST, O_PUT, O_REMOVE};
-static const int SEQOPS_LIST[] = {O_ADDFIRST, O_ADDLAST, O_ADDLAST, O_POPFIRST, O_POPFIRST, O_POPLAST, O_GETFIRST, O_GETLAST, O_TOARRAY, O_TOSTRING, O_SEQCLEAR, O_ADDAT, O_GETAT, O_POPAT};
-static const int SEQOPS_VEC[] = {O_ADDFIRST, O_ADDLAST, O_ADDLAST, O_POPFIRST, O_POPFIRST, O_POPLAST, O_GETFIRST, O_GETLAST, O_TOARRAY, O_TOARRAY, O_SEQCLEAR, O_ADDAT, O_GETAT, O_POPAT};
+static const int SEQOPS_LIST[] = {O_ADDFIRST, O_ADDLAST, O_ADDLAST, O_POPFIRST, O_POPFIRST, O_POPLAST, O_GETFIRST, O_GETLAST, O_TOARRAY, O_TOSTRING, O_SEQCLEAR, O_ADDAT, O_GETAT, O_POPAT, O_NEXT1};
+static const int SEQOPS_VEC[] = {O_ADDFIRST, O_ADDLAST, O_ADDLAST, O_POPFIRST, O_POPFIRST, O_POPLAST, O_GETFIRST, O_GETLAST, O_TOARRAY, O_TOARRAY, O_SEQCLEAR, O_ADDAT, O_GETAT, O_POPAT, O_NEXT1};
 static const int SEQOPS_QS[] = {O_ADDLAST, O_ADDLAST, O_POPFIRST, O_POPFIRST, O_GETFIRST, O_SEQCLEAR};
 static int pick_op(int kind, rng_t *r) {
     if (kind == K_TREE) return TREEOPS[rng_below(r, 12)];
+    if (kind == K_LISTMULTI) return MULTIOPS[rng_below(r, 12)];
+    if (kind == K_LISTTBL) return LTBLOPS[rng_below(r, 10)];
     if (is_map(kind)) return MAPOPS[rng_below(r, 7)];
-    if (kind == K_LIST) return SEQOPS_LIST[rng_below(r, 14)];
-    if (kind == K_VECTOR) return SEQOPS_VEC[rng_below(r, 14)];
+    if (kind == K_LIST) return SEQOPS_LIST[rng_below(r, 15)];
+    if (kind == K_VECTOR) return SEQOPS_VEC[rng_below(r, 15)];
     return SEQOPS_QS[rng_below(r, 6)];
 }
 static void gen_program(program_t *pg, long pid, rng_t *r) {
@@ -407,19 +447,23 @@ static void gen_program(program_t *pg, long pid, rng_t *r) {
         for (int i = 0; i < pg->nops[t]; i++) { pg->ops[t][i].op = pick_op(pg->kind, r); pg->ops[t][i].key = (int)rng_below(r, 2); pg->ops[t][i].val = idval((uint64_t)(pid * 64 + t * 8 + i + 1)); } }
     /* directed programs first */
     long d = pid / NKINDS;
-    if (d == 0 && !is_map(pg->kind)) { pg->nthreads = 2; pg->nops[0] = 1; pg->nops[1] = 2; pg->prefill = 1; pg->ops[0][0].op = O_ADDLAST; pg->ops[1][0].op = O_POPFIRST; pg->ops[1][1].op = O_POPFIRST; }
+    if (d == 0 && !is_keyed(pg->kind)) { pg->nthreads = 2; pg->nops[0] = 1; pg->nops[1] = 2; pg->prefill = 1; pg->ops[0][0].op = O_ADDLAST; pg->ops[1][0].op = O_POPFIRST; pg->ops[1][1].op = O_POPFIRST; }
     if (d == 1 && (pg->kind == K_LIST || pg->kind == K_VECTOR)) { pg->nthreads = 2; pg->nops[0] = 1; pg->nops[1] = 2; pg->prefill = 0; pg->ops[0][0].op = O_TOARRAY; pg->ops[1][0].op = O_ADDLAST; pg->ops[1][1].op = O_ADDLAST; }
     if (d == 0 && is_map(pg->kind)) { pg->nthreads = 3; pg->prefill = 1; for (int t = 0; t < 3; t++) { pg->nops[t] = 2; } pg->ops[0][0].op = O_PUT; pg->ops[0][1].op = O_PUT; pg->ops[1][0].op = O_REMOVE; pg->ops[1][1].op = O_GET; pg->ops[2][0].op = O_GET; pg->ops[2][1].op = O_REMOVE; for (int t = 0; t < 3; t++) for (int i = 0; i < 2; i++) pg->ops[t][i].key = 0; }
-    if (d == 1 && is_map(pg->kind)) { pg->nthreads = 2; pg->prefill = 2; pg->nops[0] = 1; pg->nops[1] = 2; pg->ops[0][0].op = O_WALK; pg->ops[1][0].op = O_PUT; pg->ops[1][1].op = O_REMOVE; pg->ops[1][0].key = 0; pg->ops[1][1].key = 1; }
+    if (d == 1 && is_keyed(pg->kind)) { pg->nthreads = 2; pg->prefill = 2; pg->nops[0] = 1; pg->nops[1] = 2; pg->ops[0][0].op = O_WALK; pg->ops[1][0].op = O_PUT; pg->ops[1][1].op = O_REMOVE; pg->ops[1][0].key = 0; pg->ops[1][1].key = 1; }
     if (d >= 2 && d <= 4 && pg->kind == K_TREE) { pg->nthreads = 2; pg->prefill = 2; pg->nops[0] = 1; pg->nops[1] = 2; pg->ops[0][0].op = d == 2 ? O_FINDMIN : d == 3 ? O_FINDMAX : O_NEAREST; pg->ops[0][0].key = 1;
         pg->ops[1][0].op = O_REMOVE; pg->ops[1][0].key = d == 2 ? 0 : 1; pg->ops[1][1].op = O_PUT; pg->ops[1][1].key = d == 2 ? 0 : 1; }
     if (d == 3 && (pg->kind == K_LIST || pg->kind == K_VECTOR)) { pg->nthreads = 2; pg->prefill = 2; pg->nops[0] = 2; pg->nops[1] = 2; pg->ops[0][0].op = O_GETAT; pg->ops[0][0].key = 1; pg->ops[0][1].op = O_ADDAT; pg->ops[0][1].key = 1; pg->ops[1][0].op = O_POPAT; pg->ops[1][0].key = 0; pg->ops[1][1].op = O_POPAT; pg->ops[1][1].key = 1; }
+    if (d == 0 && pg->kind == K_LISTMULTI) { pg->nthreads = 2; pg->prefill = 1; pg->nops[0] = 2; pg->nops[1] = 2; pg->ops[0][0].op = O_PUT; pg->ops[0][1].op = O_PUT; pg->ops[1][0].op = O_GETMULTI; pg->ops[1][1].op = O_GETMULTI; for (int t = 0; t < 2; t++) for (int i = 0; i < 2; i++) pg->ops[t][i].key = 0; }
+    if (d == 2 && pg->kind == K_LISTMULTI) { pg->nthreads = 2; pg->prefill = 2; pg->nops[0] = 2; pg->nops[1] = 2; pg->ops[0][0].op = O_GETMULTI; pg->ops[0][1].op = O_GET; pg->ops[1][0].op = O_REMOVE; pg->ops[1][1].op = O_PUT; for (int t = 0; t < 2; t++) for (int i = 0; i < 2; i++) pg->ops[t][i].key = 0; }
+    if (d == 2 && pg->kind == K_LISTTBL) { pg->nthreads = 2; pg->prefill = 1; pg->nops[0] = 2; pg->nops[1] = 2; pg->ops[0][0].op = O_NEXT1; pg->ops[0][1].op = O_NEXT1; pg->ops[1][0].op = O_PUT; pg->ops[1][1].op = O_PUT; for (int t = 0; t < 2; t++) for (int i = 0; i < 2; i++) pg->ops[t][i].key = 0; }
+    if (d == 3 && pg->kind == K_LISTMULTI) { pg->nthreads = 2; pg->prefill = 2; pg->nops[0] = 2; pg->nops[1] = 2; pg->ops[0][0].op = O_NEXT1ANY; pg->ops[0][1].op = O_NEXT1; pg->ops[1][0].op = O_REMOVE; pg->ops[1][1].op = O_PUT; for (int t = 0; t < 2; t++) for (int i = 0; i < 2; i++) pg->ops[t][i].key = 0; }
     if (d == 2 && pg->kind == K_LIST) { pg->nthreads = 2; pg->nops[0] = 1; pg->nops[1] = 2; pg->prefill = 1; pg->ops[0][0].op = O_TOSTRING; pg->ops[1][0].op = O_POPFIRST; pg->ops[1][1].op = O_ADDLAST; }
 }
 static void program_text(program_t *pg, char *b, size_t bs) {
     int n = snprintf(b, bs, "%s prefill=%d: ", KNAME[pg->kind], pg->prefill);
     for (int t = 0; t < pg->nthreads; t++) { n += snprintf(b + n, bs - (size_t)n, "%sT%d{", t ? " || " : "", t);
-        for (int i = 0; i < pg->nops[t]; i++) n += snprintf(b + n, bs - (size_t)n, "%s%s%s", i ? ";" : "", ONAME[pg->ops[t][i].op], (pg->ops[t][i].op <= O_REMOVE || pg->ops[t][i].op == O_NEAREST) ? (pg->ops[t][i].key ? "(k1)" : "(k0)") : pg->ops[t][i].op >= O_ADDAT ? (pg->ops[t][i].key ? "(@1)" : "(@0)") : "");
+        for (int i = 0; i < pg->nops[t]; i++) n += snprintf(b + n, bs - (size_t)n, "%s%s%s", i ? ";" : "", ONAME[pg->ops[t][i].op], (pg->ops[t][i].op <= O_REMOVE || pg->ops[t][i].op == O_NEAREST || pg->ops[t][i].op == O_GETMULTI || (pg->ops[t][i].op == O_NEXT1 && is_keyed(pg->kind))) ? (pg->ops[t][i].key ? "(k1)" : "(k0)") : (pg->ops[t][i].op >= O_ADDAT && pg->ops[t][i].op <= O_POPAT) ? (pg->ops[t][i].key ? "(@1)" : "(@0)") : "");
         n += snprintf(b + n, bs - (size_t)n, "}"); }
 }
 
@@ -499,7 +543,7 @@ static void *stress_main(void *arg) {
         hop_t *h = &SH[id][i]; memset(h, 0, sizeof *h);
         h->thread = id; h->s.op = pick_op(S_KIND, &TR); h->s.key = (int)rng_below(&TR, S_KIND == K_TREE ? 3 : 2);
         if (h->s.op == O_WALK && rng_chance(&TR, 2, 3)) h->s.op = O_GET;
-        if ((h->s.op == O_CLEAR || h->s.op == O_SEQCLEAR) && rng_chance(&TR, 3, 4)) h->s.op = is_map(S_KIND) ? O_PUT : O_ADDLAST;
+        if ((h->s.op == O_CLEAR || h->s.op == O_SEQCLEAR) && rng_chance(&TR, 3, 4)) h->s.op = is_keyed(S_KIND) ? O_PUT : O_ADDLAST;
         h->s.val = idval((uint64_t)(id + 1) * 100000 + (uint64_t)i + 1);
         h->inv = stamp();
         IN_OP = 1; do_op(&CX, &h->s, &h->r); IN_OP = 0;
@@ -517,12 +561,16 @@ static int check_map_history(int kind, hop_t *all, int n, hop_t *fin) {
         for (int i = 0; i < n; i++) {
             hop_t h = all[i];
             if (h.s.op == O_CLEAR) { h.s.op = O_REMOVE; h.s.key = k; h.r.ok = -1; }     /* projected: remove with unknown result */
+            else if (kind == K_LISTMULTI && h.s.op == O_WALK) { if (h.r.n < 0) return -1; int w = 0; for (int j = 0; j < h.r.n; j++) if ((int)h.r.keys[j] == k) h.r.snap[w++] = h.r.snap[j]; h.r.n = w; h.s.op = O_GETMULTI; h.s.key = k; }
+            else if (kind == K_LISTMULTI && h.s.op == O_GETMULTI && h.r.n < 0) return -1;
             else if (h.s.op == O_WALK) { int f = -1; for (int j = 0; j < h.r.n; j++) if ((int)h.r.keys[j] == k) f = j; h.s.op = O_GET; h.s.key = k; h.r.ok = f >= 0; h.r.val = f >= 0 ? h.r.snap[f] : 0; }
-            else if (h.s.op == O_FINDMIN || h.s.op == O_FINDMAX || h.s.op == O_NEAREST) continue;   /* touch every key: judged by check_ordered_lookups */
+            else if (h.s.op == O_FINDMIN || h.s.op == O_FINDMAX || h.s.op == O_NEAREST || h.s.op == O_NEXT1ANY) continue;
+            else if (h.s.op == O_NEXT1 && h.s.key == k) { if (h.r.ok && (int)h.r.keys[0] != k) { h.r.val = ~0ULL; } h.s.op = O_GET; sub[m++] = h; continue; }   /* touch every key: judged by check_ordered_lookups */
             else if (h.s.key != k) continue;
             sub[m++] = h;
         }
-        { hop_t h = *fin; int f = -1; for (int j = 0; j < h.r.n; j++) if ((int)h.r.keys[j] == k) f = j; h.s.op = O_GET; h.s.key = k; h.r.ok = f >= 0; h.r.val = f >= 0 ? h.r.snap[f] : 0; sub[m++] = h; }
+        if (kind == K_LISTMULTI) { hop_t h = *fin; if (h.r.n < 0) return -1; int w = 0; for (int j = 0; j < h.r.n; j++) if ((int)h.r.keys[j] == k) h.r.snap[w++] = h.r.snap[j]; h.r.n = w; h.s.op = O_GETMULTI; h.s.key = k; sub[m++] = h; }
+        else { hop_t h = *fin; int f = -1; for (int j = 0; j < h.r.n; j++) if ((int)h.r.keys[j] == k) f = j; h.s.op = O_GET; h.s.key = k; h.r.ok = f >= 0; h.r.val = f >= 0 ? h.r.snap[f] : 0; sub[m++] = h; }
         if (m > 60) { /* keep the search tractable: too many operations on one key */ worst = worst == 0 ? 0 : -1; continue; }
         model_t init; memset(&init, 0, sizeof init); int order[64];
         int r = linearizable(kind, sub, m, &init, order);
@@ -532,12 +580,12 @@ static int check_map_history(int kind, hop_t *all, int n, hop_t *fin) {
     return worst;
 }
 /* tree: find_min/find_max/find_nearest results must name a key, and (nearest) a value, that some put invoked before the response stored */
-static const char *check_ordered_lookups(hop_t *all, int n) {
-    for (int i = 0; i < n; i++) { hop_t *g = &all[i]; if (g->s.op != O_FINDMIN && g->s.op != O_FINDMAX && g->s.op != O_NEAREST) continue;
+static const char *check_ordered_lookups(int kind, hop_t *all, int n) {
+    for (int i = 0; i < n; i++) { hop_t *g = &all[i]; if (g->s.op != O_FINDMIN && g->s.op != O_FINDMAX && g->s.op != O_NEAREST && g->s.op != O_NEXT1ANY) continue;
         vf_count("stress_ordered_lookups_checked", 1);
         if (!g->r.ok) continue;
         if (g->r.keys[0] >= NKEYS) return "an ordered lookup returned a key that was never stored (torn or freed name)";
-        bool okk = false; for (int k = 0; k < n; k++) if (all[k].s.op == O_PUT && (uint64_t)all[k].s.key == g->r.keys[0] && all[k].inv < g->resp && (g->s.op != O_NEAREST || all[k].s.val == g->r.val)) okk = true;
+        bool okk = false; for (int k = 0; k < n; k++) if (all[k].s.op == O_PUT && (uint64_t)all[k].s.key == g->r.keys[0] && all[k].inv < g->resp && ((g->s.op != O_NEAREST && g->s.op != O_NEXT1 && g->s.op != O_NEXT1ANY) || all[k].s.val == g->r.val)) okk = true;
         if (!okk) return g->s.op == O_NEAREST ? "find_nearest returned a key/value pair that no put invoked before it stored" : "find_min/max returned a key that no put invoked before it stored"; }
     return NULL;
 }
@@ -585,7 +633,7 @@ static const char *check_seq_history(int kind, hop_t *all, int n, hop_t *fin) {
 static void stress_case(long caseno) {
     rng_seed(&R, VF.seed, (uint64_t)caseno);
     S_KIND = (int)(caseno % NKINDS); S_NT = 4 + (int)rng_below(&R, 5); S_OPS = 10 + (int)rng_below(&R, (uint32_t)(400 / S_NT - 9)); if (S_OPS > SMAXOPS) S_OPS = SMAXOPS; S_CASE = caseno;
-    if (is_map(S_KIND) && S_NT * S_OPS > 56) S_OPS = 56 / S_NT;
+    if (is_keyed(S_KIND) && S_NT * S_OPS > 56) S_OPS = 56 / S_NT;
     vf_case_begin(caseno, "stress: %s threads=%d ops/thread=%d", KNAME[S_KIND], S_NT, S_OPS);
     make(&CX, S_KIND); STAMP = 0;
     vf_lock_register(CX.mutex);
@@ -599,7 +647,7 @@ static void stress_case(long caseno) {
     vf_sched_point = NULL; vf_lock_unregister_all();
     hop_t *all = hm_alloc(sizeof(hop_t) * (size_t)(S_NT * S_OPS + 1)); int n = 0;
     for (int t = 0; t < S_NT; t++) for (int i = 0; i < SN[t]; i++) all[n++] = SH[t][i];
-    hop_t fin; memset(&fin, 0, sizeof fin); fin.thread = 99; fin.inv = stamp(); fin.done = true; fin.s.op = is_map(S_KIND) ? O_WALK : O_TOARRAY;
+    hop_t fin; memset(&fin, 0, sizeof fin); fin.thread = 99; fin.inv = stamp(); fin.done = true; fin.s.op = is_keyed(S_KIND) ? O_WALK : O_TOARRAY;
     if (S_KIND == K_QUEUE || S_KIND == K_STACK) { qlist_t *l = S_KIND == K_QUEUE ? CX.queue->list : CX.stack->list; for (qlist_obj_t *o = l->first; o && fin.r.n < MAXSNAP; o = o->next) { memcpy(&fin.r.snap[fin.r.n], o->data, 8); fin.r.n++; } if (l->num > MAXSNAP) fin.r.n = -2; }
     else if (S_KIND == K_LIST) { for (qlist_obj_t *o = CX.list->first; o && fin.r.n < MAXSNAP; o = o->next) { memcpy(&fin.r.snap[fin.r.n], o->data, 8); fin.r.n++; } if (CX.list->num > MAXSNAP) fin.r.n = -2; }
     else if (S_KIND == K_VECTOR) { if (CX.vec->num > MAXSNAP) fin.r.n = -2; else { fin.r.n = (int)CX.vec->num; memcpy(fin.r.snap, CX.vec->data, CX.vec->num * 8); } }
@@ -610,10 +658,10 @@ static void stress_case(long caseno) {
     vf_distinct("distinct", hh); vf_distinct("distinct_outcomes", hh);
 #ifndef __SANITIZE_THREAD__
     if (fin.r.n == -2) vf_count("stress_histories_final_too_long_skipped", 1);
-    else if (is_map(S_KIND)) {
+    else if (is_keyed(S_KIND)) {
         int r = check_map_history(S_KIND, all, n, &fin);
-        const char *why = S_KIND == K_TREE ? check_ordered_lookups(all, n) : NULL;
-        if (why) { for (int i = 0; i < n && i < 200; i++) { char b[400]; describe(b, sizeof b, &all[i]); vf_log("%s", b); } vf_viol("C13", "stress-ordered-lookup:qtreetbl", "stress history (%d threads x %d ops): %s", S_NT, S_OPS, why); }
+        const char *why = (S_KIND == K_TREE || S_KIND == K_LISTMULTI) ? check_ordered_lookups(S_KIND, all, n) : NULL;
+        if (why) { for (int i = 0; i < n && i < 200; i++) { char b[400]; describe(b, sizeof b, &all[i]); vf_log("%s", b); } { char key[100]; snprintf(key, sizeof key, "stress-ordered-lookup:%s", KNAME[S_KIND]); vf_viol("C13", key, "stress history (%d threads x %d ops): %s", S_NT, S_OPS, why); } }
         if (r == 0) { char key[100]; snprintf(key, sizeof key, "stress-not-linearizable:%s", KNAME[S_KIND]); vf_viol("C13", key, "stress history (%d threads x %d ops) has a key whose sub-history is not linearizable", S_NT, S_OPS); }
         else vf_count(r > 0 ? "stress_histories_linearizable" : "stress_histories_inconclusive", 1);
     } else {
